@@ -8,4 +8,6 @@ R1 == << <<"stable">>, <<"stable">>, <<"stable">> >>
 ProgA == (1 :> W1) @@ (2 :> W2) @@ (3 :> W3) @@ (4 :> R1)
 ProgB == (1 :> W1) @@ (2 :> W1) @@ (3 :> R1)
 ProgC == (1 :> W1) @@ (2 :> W2) @@ (3 :> W3) @@ (4 :> R1) @@ (5 :> << <<"lock">>, <<"set", "ins", TRUE>>, <<"set", "spl", TRUE>>, <<"unlock">> >>)
+\* an insert that splits the node (both dirty bits in one critical section) next to a plain insert and a reader
+ProgE == (1 :> << <<"lock">>, <<"set", "ins", TRUE>>, <<"set", "spl", TRUE>>, <<"unlock">> >>) @@ (2 :> << <<"lock">>, <<"set", "ins", TRUE>>, <<"unlock">> >>) @@ (3 :> R1)
 ====
